@@ -217,8 +217,8 @@ class Neighbor:
             return f'peer-ip {self.session.peer_address} listen {self.session.listen}'.encode()
         return self.name().encode()
 
-    def make_rib(self) -> None:
-        self.rib.enable(self.name(), self.adj_rib_in, self.adj_rib_out, set(self._families))
+    def make_rib(self, staged: bool = False) -> None:
+        self.rib.enable(self.name(), self.adj_rib_in, self.adj_rib_out, set(self._families), staged)
 
     # will resend all the routes once we reconnect
     def reset_rib(self) -> None:
